@@ -12,10 +12,10 @@
 static_assert(std::is_same<std::vector<int>, igris::vector<int, std::allocator<int>>>::value, "compat/std/vector must alias igris::vector");
 
 // comparators as in C02.cpp: less (default), greater, by last digit, greater on the decimal text
-static FlatOps<std::map<int, Box>, std::set<Box>, Box, Box> g_ops0;
-static FlatOps<std::map<int, Box, std::greater<int>>, std::set<Box, std::greater<Box>>, Box, Box> g_ops1;
-static FlatOps<std::map<int, Box, ByLastDigit>, std::set<Box, ByLastDigit>, Box, Box> g_ops2;
-static FlatOps<std::map<int, Box, TextGreater>, std::set<Box, TextGreater>, Box, Box> g_ops3;
+static FlatOps<std::map<int, Box>, std::set<Box>, Box, Box, int, false> g_ops0;
+static FlatOps<std::map<int, Box, std::greater<int>>, std::set<Box, std::greater<Box>>, Box, Box, int, false> g_ops1;
+static FlatOps<std::map<int, Box, ByLastDigit>, std::set<Box, ByLastDigit>, Box, Box, int, false> g_ops2;
+static FlatOps<std::map<int, Box, TextGreater>, std::set<Box, TextGreater>, Box, Box, int, false> g_ops3;
 static FlatBase *g_ops = &g_ops0;
 
 std::string c02_compat(const std::string &line)
